@@ -141,6 +141,37 @@ def public_shebang_bytes(x, eol, cookie, preserve):
     return {'violated': bad, 'detail': 'minify(%r) -> %r, expected %r' % (src, out, (line + '<newline>' if preserve else '') + 'x=1')}
 
 
+def direct_obligations(tier, seed):
+    """C16d: a coding cookie that sits inside the shebang line.  Decoding happens in CPython's C tokenizer, so this is decided by
+    running the real minify() and the real parser on the (small, fully enumerated) family shebang-with-cookie x non-ASCII literal."""
+    import ast
+    import time
+    import python_minifier
+    t0 = time.time()
+    cases = []
+    problems = []
+    for cookie, codec in (('latin-1', 'latin-1'), ('cp1252', 'cp1252'), ('iso-8859-15', 'iso-8859-15'), ('utf-8', 'utf-8')):
+        for ch in ('\xe9', '\xfc', '\xa4'):
+            try:
+                src = ('#!/usr/bin/python -*- coding: %s -*-\nx = "%s"\n' % (cookie, ch)).encode(codec)
+            except UnicodeEncodeError:
+                continue
+            want = ast.dump(ast.parse(src))
+            out = python_minifier.minify(src)
+            try:
+                got = ast.dump(ast.parse(out.encode('utf-8')))
+            except SyntaxError as e:
+                got = 'SyntaxError: %s' % e
+            cases.append({'source': repr(src), 'minified_utf8': repr(out.encode('utf-8')), 'same_constants': got == want})
+            if got != want:
+                problems.append('source %r: the UTF-8 encoded result %r keeps the %s cookie in its shebang line and denotes different constants' % (src, out.encode('utf-8'), cookie))
+    verdict = 'violated' if problems else 'discharged'
+    return [{'name': 'C16d.cookie_in_shebang', 'verdict': verdict, 'problems': problems[:3], 'queries': 0, 'solver_time_s': round(time.time() - t0, 3),
+             'bounds': '4 cookies x 3 non-ASCII characters, shebang line carrying the cookie (concrete: decoding is CPython C code)',
+             'samples': cases[:4], 'violation': ({'key': 'cookie-in-shebang', 'detail': problems[0]} if problems else None),
+             'witnesses_validated': len(cases), 'functions': ['python_minifier/__init__.py:minify', 'python_minifier/__init__.py:_find_shebang']}]
+
+
 def obligations(tier, seed):
     n_text = 6 if tier == 'quick' else 7
     n_x = 3 if tier == 'quick' else 4
